@@ -257,6 +257,18 @@ def c11(ck):
             for pos in ("method M(f: %s)->()", "method M()->(f: %s)", "type X (f: %s)\nmethod M()->()", "error E (f: %s)\nmethod M()->()",
                         "method M(g: (h: %s))->()")[:(2 if quick and L > 3 else 5)]:
                 add("wrapexpr", "interface a.b\ntype T (z: int)\n" + pos % e + "\n", type_ok(e))
+    # member names and field names over a small alphabet, in every declaring position: a type / method / error name is an
+    # upper-case letter followed by letters and digits (no underscore: the generator builds its own names with them); a field
+    # name is a letter followed by letters and digits, each optionally preceded by one underscore
+    for L in range(1, (4 if quick else 5) + 1):
+        for tup in itertools.product("Aa1_", repeat=L):
+            nm = "".join(tup)
+            ok_name = re.fullmatch(r"[A-Z][A-Za-z0-9]*", nm) is not None
+            ok_field = re.fullmatch(r"[A-Za-z](_?[A-Za-z0-9])*", nm) is not None
+            for pos in ("type %s (x: int)\nmethod M()->()", "method %s()->()", "error %s ()\nmethod M()->()"):
+                add("name", "interface a.b\n" + pos % nm + "\n", ok_name)
+            add("name", "interface a.b\nmethod M(%s: int)->()\n" % nm, ok_field)
+            add("name", "interface a.b\ntype T (%s, zz)\nmethod M()->()\n" % nm, ok_field)
     # duplicate names, all kind x kind pairs, same and different order
     defs = {"method": "method %s() -> ()", "type": "type %s (a: int)", "error": "error %s (a: int)"}
     for k1 in defs:
@@ -293,6 +305,9 @@ def c11(ck):
                 # a text on which the verdicts differ is accepted without following the grammar, or rejected although it does
                 ck.failures.append({"what": "the parser %s a text that the varlink grammar %s" % (
                     ("accepts", "does not derive") if a.startswith("ok") else ("rejects", "derives")), "text": text[:800]})
+        if kind == "name" and a.startswith("ok") != bool(info):
+            ck.failures.append({"what": "a definition whose member / field name %s the name grammar was %s" % (
+                "follows" if info else "does not follow", "accepted" if a.startswith("ok") else "rejected"), "text": text[:300]})
         if kind == "wrapexpr" and a.startswith("ok") != bool(info):
             ck.failures.append({"what": "type expression %s although it %s of the form ['?'] {'[]' | '[string]' ['?']} (int | Name)" % (
                 "accepted" if a.startswith("ok") else "rejected", "is" if info else "is not"), "text": text[:300]})
